@@ -8,6 +8,7 @@
   engine / real signatures are compared on every run by the harness (independent engine run + btcec).
 -/
 import MW.Model.Sign
+import MW.Gen.Sec
 import MW.Lemmas.Sign
 namespace MW.Props.C03
 open MW.Model.Sign MW.Lemmas.Sign
@@ -94,6 +95,13 @@ theorem wrong_pass_no_signature (E : Engine C A) (env : Env C A) (pass : C.Pass)
     (L : Lock C) (hL : LockCons pass L) (p : C.Pass) (hne : p ≠ pass) (stx : STx) (i : Nat) (fl : Flag)
     (po : PrevOut A) : ∃ e, signOne E env L p stx i fl po = .error e :=
   signOne_wrong hp hL hne stx i fl po
+
+/-- tie B: the flag strings of today's SignRawTx switch are the six the model parses, and both signing
+    entry points still defer ClearPrivKey -/
+theorem gen_tie_flags :
+    Gen.Sec.signFlags.map parseFlag =
+      [some ⟨.all, false⟩, some ⟨.none, false⟩, some ⟨.single, false⟩, some ⟨.all, true⟩, some ⟨.none, true⟩, some ⟨.single, true⟩] ∧
+    Gen.Sec.signWitnessTxDefersClear = true ∧ Gen.Sec.signHashDefersClear = true := by decide
 
 -- ------------------------------------------------------------------ toy instances (non-vacuity)
 
